@@ -34,12 +34,12 @@ def inputs_from_trace(trace):
         if st.get('stepType') != 'assignment':
             continue
         lhs = st.get('lhs', '')
-        if not re.match(r'^vp_in\b', lhs):
+        if not re.match(r'^vp_in', lhs) or lhs.startswith('vp_internal'):
             continue
         if '$pad' in lhs:
             continue
         v = st.get('value', {})
-        if 'binary' not in v:
+        if 'binary' not in v or '[' not in lhs and 'elements' in v:
             continue
         lhs = re.sub(r'\[(\d+)[a-zA-Z]*\]', r'[\1]', lhs)
         if lhs not in vals:
@@ -225,7 +225,7 @@ def gen_checked(fn, ret, params, ensures):
 
 
 def native_flags():
-    fl = ['-DVP_NATIVE', '-g', '-O0', '-fsanitize=address,undefined', '-fno-sanitize-recover=undefined', '-w',
+    fl = ['-DVP_NATIVE', '-g', '-O0', '-fno-pie', '-fsanitize=address,undefined', '-fno-sanitize-recover=undefined', '-fno-sanitize=vptr', '-w',
           '-I' + os.path.join(vp.REPO, '_build') if os.path.exists(os.path.join(vp.REPO, '_build', 'config.h')) else '-I.',
           '-I' + os.path.join(VERIF, 'support'), '-I' + os.path.join(VERIF, 'env'), '-I' + os.path.join(VERIF, 'contracts')]
     for d in vp.native_include_dirs():
@@ -284,12 +284,12 @@ def build_and_run_twin(unit, chk, inputs, workdir, native_slices=None, obligatio
     cxx += [unit.file(f) for f in unit.spec.get('native_extra', [])]
     for i, f in enumerate(cxx):
         o = os.path.join(workdir, 'n%d.o' % i)
-        rc, out, err, _ = vp.sh(['g++', '-std=gnu++14'] + fl + defs + ['-c', f, '-o', o])
+        rc, out, err, _ = vp.sh(['g++', '-std=gnu++14', '-Dprivate=public', '-Dprotected=public', '-I' + unit.dir] + fl + defs + ['-c', f, '-o', o])
         if rc != 0:
             return 'build-failed', '%s: %s' % (f, err[-3000:])
         objs.append(o)
     exe = os.path.join(workdir, 'twin')
-    rc, out, err, _ = vp.sh(['g++', '-fsanitize=address,undefined', '-Wl,--unresolved-symbols=ignore-all'] + objs + ['-o', exe] + unit.spec.get('native_libs', []))
+    rc, out, err, _ = vp.sh(['g++', '-no-pie', '-fsanitize=address,undefined', '-Wl,--unresolved-symbols=ignore-all', '-Wl,-z,lazy'] + objs + ['-o', exe] + unit.spec.get('native_libs', []))
     if rc != 0:
         return 'build-failed', 'link: ' + err[-3000:]
     env = dict(os.environ)
@@ -305,7 +305,9 @@ def build_and_run_twin(unit, chk, inputs, workdir, native_slices=None, obligatio
         return 'confirmed', text
     if rc == 0:
         return 'not-confirmed', text
-    return 'crash', text
+    if 'AddressSanitizer' in text or 'runtime error:' in text or rc < 0 or 'Segmentation' in text:
+        return 'crash', text
+    return 'run-failed', text
 
 
 def make_replay(prop, unit, chk, res, violation, rep, scratch):
@@ -314,12 +316,19 @@ def make_replay(prop, unit, chk, res, violation, rep, scratch):
     inputs = inputs_from_trace(violation.get('trace'))
     safe = re.sub(r'[^A-Za-z0-9_.-]', '_', '%s-%s-%s-%s' % (prop, unit.name, res['check'], obl))
     path = os.path.join(VERIF, 'replay', safe + '.json')
+    names = {}
+    sh_h = os.path.join(unit.dir, 'shared.h')
+    if os.path.exists(sh_h):
+        m = re.search(r'enum\s+vp_in_idx\s*\{([^}]*)\}', open(sh_h).read())
+        if m:
+            for i, nm in enumerate(x.strip() for x in re.sub(r'/\*.*?\*/', '', m.group(1), flags=re.S).split(',')):
+                names['vp_in[%d]' % i] = nm
     doc = {
         'property': prop, 'unit': unit.name, 'check': res['check'], 'obligation': obl,
         'description': violation.get('description'),
         'location': violation.get('sourceLocation'),
         'checker_cmd': res.get('checker_cmd'),
-        'inputs': [{'lhs': k, 'binary': v['binary'], 'data': v['data'], 'type': v['type']} for k, v in inputs],
+        'inputs': [{'lhs': k, 'name': names.get(k), 'binary': v['binary'], 'data': v['data'], 'type': v['type']} for k, v in inputs],
         'verifier_output': trace_digest(violation.get('trace')),
         'how_to_replay': './bin/vcheck --replay ' + path,
     }
